@@ -72,8 +72,9 @@ type Pattern struct {
 // point at the occurrence that binds them.  Pid is the index in the compiled
 // regex table; it is assigned by Expand in code-generation walk order.
 type PatNode struct {
-	P   *Pattern
-	Pid int
+	P    *Pattern
+	Pid  int
+	Spid int // surface id: one per textual occurrence (SurfaceCoq)
 }
 
 // Expr is a typed expression.  Op selects the form:
@@ -112,8 +113,9 @@ type Expr struct {
 	A, B, C *Expr
 	M       *Metric
 	Keys    []*Expr
-	Paren   bool // written with redundant parentheses
-	Typed   int  // cmp: +1 typed / -1 generic comparison selected by the real compiler (0 = derive)
+	Paren   bool  // written with redundant parentheses
+	orig    *Expr // expansion: the source node this node was cloned from
+	Typed   int   // cmp: +1 typed / -1 generic comparison selected by the real compiler (0 = derive)
 }
 
 // Stmt is a statement.  Op selects the form:
@@ -164,8 +166,7 @@ type Program struct {
 	// Features counts the constructs used (for the input distribution).
 	Features map[string]int
 
-	// HasIncValue: the program uses x++ / x-- as a value (Expr op "incv"); the Coq
-	// AST has no such node yet: these programs are judged by the Go reference only.
+	// HasIncValue: the program uses x++ / x-- as a value (Expr op "incv", Coq EIncr).
 	HasIncValue bool
 	// ExtraLines are inputs that exercise the flagged construct (flagged streams only).
 	ExtraLines []string
